@@ -45,7 +45,7 @@ class Network:
     def mode(self):
         """phases = [(duration_s | "until:<STATE>", mode)]; a trigger phase lasts until `state_fn()` first returns <STATE>
         (state_fn is set by the harness, e.g. the manager's state name); afterwards the network is healthy for good.
-        modes: healthy | blackout | rferr | lossy:<p> | noping (every APING datagram is lost, both ways) |
+        modes: healthy | blackout | rferr | rferr-nonping (RFERR to everything but pings) | lossy:<p> | noping (every APING datagram is lost, both ways) |
                first:<n> (the first n transmissions of each request verb are lost) | combinations joined by '+'"""
         now = self.loop.time()
         if not hasattr(self, "_ends"):
@@ -111,7 +111,10 @@ class Network:
         builtins.print = lambda *a, **k: None
         try:
             sim = self.sim
-            sim._do_rferr = self.mode() == "rferr"
+            # rferr: the spa answers EVERY request with RFERR; rferr-nonping: every request except pings (the in.touch2 EN module
+            # answers the ping itself, the RF link to the CO module behind it is what is down)
+            mode_ = self.mode()
+            sim._do_rferr = mode_ == "rferr" or (mode_ == "rferr-nonping" and b"APING" not in data)
             try:
                 sim._socket.dispatch_recevied_data(data, tr.addr)
             except Exception:  # noqa
